@@ -250,3 +250,158 @@ pub fn replay_leaf_conformance<A>(ctx: &mut Ctx, case: &serde_json::Value, site:
     }
     true
 }
+
+
+// ------------------------------------------------------------------ timed conformance (E5)
+
+/// the portions of a path for a timed run: every line (or burst) is a portion, a tick advances the clock after
+/// the portion before it (a leading tick becomes an empty portion)
+pub fn timed_steps(actions: &[Action], path: &[usize]) -> Option<Vec<crate::run::TimedStep>> {
+    use crate::run::TimedStep;
+    let mut v: Vec<TimedStep> = vec![];
+    for &ai in path {
+        match &actions.get(ai)?.act {
+            Act::Line(l) => v.push(TimedStep { bytes: join_lines(&[l.clone()]), advance_ms: 0 }),
+            Act::Burst(ls) => v.push(TimedStep { bytes: join_lines(ls), advance_ms: 0 }),
+            Act::Tick(ms) => match v.last_mut() {
+                Some(last) => last.advance_ms += *ms,
+                None => v.push(TimedStep { bytes: vec![], advance_ms: *ms }),
+            },
+        }
+    }
+    Some(v)
+}
+
+/// The longest silence (ms) of any aircraft before one of its own frames along the path, given the ages of
+/// the initial rows: when it reaches delete_after the step-by-step run and a continuous run may legitimately
+/// differ (the row may be swept and re-created fresh at different moments), so such paths are not compared.
+pub fn max_silence_before_own_frame(init: &[Snap], actions: &[Action], path: &[usize]) -> i64 {
+    use crate::refmodel::accept::{Verdict, classify_line};
+    let mut silent: std::collections::HashMap<u32, i64> = init.iter().map(|r| (r.key, r.age)).collect();
+    let mut worst = 0i64;
+    for &ai in path {
+        let Some(a) = actions.get(ai) else { continue };
+        let mut hear = |l: &Vec<u8>, silent: &mut std::collections::HashMap<u32, i64>| {
+            if let Verdict::Frame { addr, .. } = classify_line(l) {
+                if addr != 0 {
+                    if let Some(s) = silent.get(&addr) {
+                        worst = worst.max(*s);
+                    }
+                    silent.insert(addr, 0);
+                }
+            }
+        };
+        match &a.act {
+            Act::Line(l) => hear(l, &mut silent),
+            Act::Burst(ls) => ls.iter().for_each(|l| hear(l, &mut silent)),
+            Act::Tick(ms) => silent.values_mut().for_each(|s| *s += *ms),
+        }
+    }
+    worst
+}
+
+/// Timed conformance: the path - ticks included - is fed as ONE stream through a FIFO while the harness
+/// moves the virtual clock between the lines; the table must be the one the step-by-step exploration
+/// reached (where silences are simulated by shifting the time stamps of a snapshot). Rows that are
+/// delete_after or more seconds old in one result may be missing from the other (the sweep falls on
+/// different frames). Returns a description of the difference.
+pub fn timed_run_differs(cfg: &Cfg, init: &[Snap], actions: &[Action], path: &[usize], stepwise: &[Snap]) -> Result<Option<String>, String> {
+    timed_run_differs_from(cfg, init, None, actions, path, stepwise)
+}
+
+/// as `timed_run_differs`; with `prefix` the continuous run starts from the EMPTY table and is first fed the
+/// lines that built `init` (so state the snapshot cannot carry is built by the same run)
+pub fn timed_run_differs_from(cfg: &Cfg, init: &[Snap], prefix: Option<&[Vec<u8>]>, actions: &[Action], path: &[usize], stepwise: &[Snap]) -> Result<Option<String>, String> {
+    let Some(mut steps) = timed_steps(actions, path) else { return Ok(None) };
+    let init: &[Snap] = if let Some(p) = prefix {
+        steps.insert(0, crate::run::TimedStep { bytes: join_lines(p), advance_ms: 0 });
+        &[]
+    } else {
+        init
+    };
+    let d_ms = cfg.args.delete_after.saturating_mul(1000);
+    let fcfg = Cfg::named(&cfg.opts.iter().map(|s| s.as_str()).collect::<Vec<_>>(), "timed.fifo");
+    let t = restore(init);
+    let rep = crate::run::run_timed(&fcfg, &steps, &t);
+    if let Some(m) = rep.machinery {
+        return Err(m);
+    }
+    let mut got = snapshot(&t);
+    tick_all(&mut got, rep.elapsed_ms);
+    if !rep.outcome.is_ok() {
+        return Ok(Some(format!("the continuous timed run ended with {}", rep.outcome.label())));
+    }
+    if !rep.all_consumed {
+        return Err("a portion of the timed stream was not seen consumed".into());
+    }
+    let mut diffs = vec![];
+    for r in stepwise {
+        match got.iter().find(|g| g.key == r.key) {
+            Some(g) if g == r => {}
+            Some(g) => diffs.push(format!("{:06X}: {}", r.key, crate::snap::diff_fields(r, g).join("; "))),
+            None if r.age >= d_ms => {}
+            None => diffs.push(format!("{:06X} ({} ms old) is missing after the continuous run", r.key, r.age)),
+        }
+    }
+    for g in &got {
+        if !stepwise.iter().any(|r| r.key == g.key) && g.age < d_ms {
+            diffs.push(format!("{:06X} ({} ms old) exists only after the continuous run", g.key, g.age));
+        }
+    }
+    Ok(if diffs.is_empty() { None } else { Some(diffs.join(" | ")) })
+}
+
+/// Leaf check built on `timed_run_differs`; reports at `<site>/timed-run/<cfg>`, the replay case carries `timed_run`.
+#[allow(clippy::too_many_arguments)]
+pub fn timed_conformance<A>(ctx: &mut Ctx, site: &str, model_name: &str, cfg: &Cfg, init: &[Snap], actions: &[Action], st: &Step<A>, extra: serde_json::Value) {
+    timed_conformance_from(ctx, site, model_name, cfg, init, None, actions, st, extra)
+}
+
+#[allow(clippy::too_many_arguments)]
+pub fn timed_conformance_from<A>(ctx: &mut Ctx, site: &str, model_name: &str, cfg: &Cfg, init: &[Snap], prefix: Option<&[Vec<u8>]>, actions: &[Action], st: &Step<A>, extra: serde_json::Value) {
+    let d_ms = cfg.args.delete_after.saturating_mul(1000);
+    if max_silence_before_own_frame(init, actions, st.path) >= d_ms {
+        ctx.count("timed-run-conformance:skipped (a row may be swept and re-created)");
+        return;
+    }
+    ctx.count("timed-run-conformance");
+    match timed_run_differs_from(cfg, init, prefix, actions, st.path, st.post) {
+        Err(m) => ctx.machinery(format!("{site} timed run [{}]: {m}", path_names(actions, st.path).join(" > "))),
+        Ok(None) => {}
+        Ok(Some(d)) => {
+            let names = path_names(actions, st.path);
+            let path = st.path.to_vec();
+            let mut ex = extra;
+            if let Some(m) = ex.as_object_mut() {
+                m.insert("timed_run".into(), serde_json::json!(true));
+            }
+            ctx.violation(
+                &format!("{site}/timed-run/{}", cfg.label()),
+                &names.join(" > "),
+                || format!("[{}] fed as one stream while the clock moves gives a different table than the same frames applied one by one with simulated silences: {d}", names.join(" > ")),
+                || serde_json::json!({"model": model_name, "cfg": cfg.opts, "path": path, "extra": ex}),
+            );
+        }
+    }
+}
+
+/// replay side of `timed_conformance`; returns true when the case was a timed-run case
+pub fn replay_timed_conformance<A>(ctx: &mut Ctx, case: &serde_json::Value, site: &str, cfg: &Cfg, init: &[Snap], actions: &[Action], st: &Step<A>) -> bool {
+    replay_timed_conformance_from(ctx, case, site, cfg, init, None, actions, st)
+}
+
+#[allow(clippy::too_many_arguments)]
+pub fn replay_timed_conformance_from<A>(ctx: &mut Ctx, case: &serde_json::Value, site: &str, cfg: &Cfg, init: &[Snap], prefix: Option<&[Vec<u8>]>, actions: &[Action], st: &Step<A>) -> bool {
+    if case.pointer("/extra/timed_run").is_none() {
+        return false;
+    }
+    match timed_run_differs_from(cfg, init, prefix, actions, st.path, st.post) {
+        Err(m) => ctx.machinery(m),
+        Ok(Some(d)) => {
+            crate::run::say(&format!("  one continuous run with a moving clock differs from step by step: {d}"));
+            ctx.violation(&format!("{site}/timed-run"), "replay", || "continuous timed run differs from step-by-step".into(), || case.clone());
+        }
+        Ok(None) => crate::run::say("  one continuous run with a moving clock gives the same table as step by step"),
+    }
+    true
+}
